@@ -264,17 +264,17 @@ theorem selLoop_fail_iff (v : Bool) (rest : List Rec) : ∀ (i : Nat) (ri : Rec)
           repeat' split
           all_goals simp
         simp only [selLoop, hc]
+        generalize (if (c == 0) = true then bytesCompare ri.bytes rj.bytes else c) = c'
         cases rest with
         | nil =>
-          have : ∀ c' : Int, (if c' < 0 then selLoop j rj (j + 1) [] else selLoop i ri (j + 1) []) ≠ none := by
-            intro c'; split <;> simp [selLoop]
-          simp [hsj, selLoop]
-          split <;> simp
+          by_cases hlt : c' < 0 <;> simp [hlt, hsj, selLoop]
         | cons rk rest2 =>
-          split
-          · rw [ih j rj (j + 1) (by simp) hvj hej hrest']
+          by_cases hlt : c' < 0
+          · simp only [hlt, if_true]
+            rw [ih j rj (j + 1) (by simp) hvj hej hrest']
             simp [hsj]
-          · rw [ih i ri (j + 1) (by simp) hv he hrest']
+          · simp only [hlt, if_false]
+            rw [ih i ri (j + 1) (by simp) hv he hrest']
             simp [hsi, hsj]
 
 end C27
